@@ -249,6 +249,19 @@ func (f *FuncCtx) call(st *State, call *ast.CallExpr) []Term {
 	}
 	var recv *Term
 	if recvE != nil && sig.Recv() != nil {
+		// method with pointer receiver called on an embedded by-value struct field (meta.NodeMeta.WriteMetaTo): the callee
+		// is inlined with its receiver bound to (object reference, field-path prefix)
+		if _, isStruct := types.Unalias(f.typeOf(recvE)).Underlying().(*types.Struct); isStruct && namedPath(f.typeOf(recvE)) != "reflect.Value" && namedPath(f.typeOf(recvE)) != "time.Time" {
+			if _, isIntr := intrinsics[key]; !isIntr {
+				if selE, ok := ast.Unparen(recvE).(*ast.SelectorExpr); ok && f.w.funcs[key] != nil {
+					ref, owner, path, _ := f.fieldLoc(st, selE)
+					pt := Term{S: ref.S, Sort: "Path:" + path, GoT: types.NewPointer(owner)}
+					args := f.evalArgs(st, call, sig)
+					return f.inlineCall(st, f.w.funcs[key], &pt, args, call)
+				}
+				unsup("method call on a struct value at %s", f.pos(call))
+			}
+		}
 		if h, ok := intrinsics[key]; ok && h.lvalueRecv {
 			// receiver handled by the intrinsic (e.g. strings.Builder local)
 			return h.fn(f, st, call, recvE, nil)
@@ -511,7 +524,7 @@ func (f *FuncCtx) builtin(st *State, call *ast.CallExpr, name string) []Term {
 			n := f.expr(st, call.Args[1])
 			f.panicIf(st, "(< "+n.S+" 0)", f.site("makeneg"))
 			z := f.zero(u.Elem())
-			if f.con != nil && f.con.Opts["track_alloc"] != "" {
+			if _, declared := f.w.ghosts["$allocated"]; declared {
 				cur := f.ghostTerm(st, "$allocated")
 				st.ghost["$allocated"] = Term{S: "(+ " + cur.S + " " + n.S + ")", Sort: SInt}
 			}
@@ -598,7 +611,9 @@ func (f *FuncCtx) inlineCall(st *State, fi *FuncInfo, recv *Term, args []Term, c
 	if fi.Decl.Recv != nil && len(fi.Decl.Recv.List) > 0 && len(fi.Decl.Recv.List[0].Names) > 0 && recv != nil {
 		rv := tinfo.Defs[fi.Decl.Recv.List[0].Names[0]].(*types.Var)
 		r := *recv
-		r.GoT = rv.Type()
+		if !strings.HasPrefix(r.Sort, "Path:") {
+			r.GoT = rv.Type()
+		}
 		st.vars[rv] = r
 	}
 	pi := 0
